@@ -13,18 +13,27 @@ Pool == << Rom(<<Ipa(A)>>, 1, FALSE), Rom(<<Ipa(T), Ipa(A)>>, 2, FALSE), Rom(<<M
            \* stress modifiers on groups, literals and matrices (tested on the segment's syllable)
            Rom(<<WithMods(Grp(9), <<<<"s", "sec.stress", TRUE>>>>)>>, 2, TRUE), Rom(<<WithMods(Grp(9), <<<<"s", "stress", TRUE>>, <<"s", "sec.stress", FALSE>>>>)>>, 1, FALSE),
            Rom(<<WithMods(Grp(1), <<<<"s", "sec.stress", FALSE>>>>)>>, 3, TRUE), Rom(<<WithMods(Ipa(A), <<<<"s", "stress", FALSE>>>>)>>, 2, FALSE),
-           Rom(<<Mx(<<FPos(F_SYLL), <<"s", "sec.stress", TRUE>>>>)>>, 1, TRUE), Rom(<<WithMods(Grp(1), <<<<"s", "stress", TRUE>>>>), Grp(9)>>, 2, FALSE) >>
+           Rom(<<Mx(<<FPos(F_SYLL), <<"s", "sec.stress", TRUE>>>>)>>, 1, TRUE), Rom(<<WithMods(Grp(1), <<<<"s", "stress", TRUE>>>>), Grp(9)>>, 2, FALSE),
+           \* tone modifiers: the romaniser uses up the tone of the syllable it fires in - and of no other
+           Rom(<<WithMods(Ipa(A), <<<<"t", 5>>>>)>>, 2, FALSE), Rom(<<WithMods(Grp(9), <<<<"t", 51>>>>)>>, 1, TRUE), Rom(<<Ipa(T), WithMods(Ipa(I), <<<<"t", 5>>>>)>>, 3, FALSE) >>
 NP == Len(Pool)
 RECURSIVE SylOf(_, _)
 SylOf(bs, i) == IF i = 1 THEN 1 ELSE SylOf(bs, i - 1) + (IF bs[i - 1] THEN 1 ELSE 0)
 RECURSIVE SegsOfSyl(_, _, _, _)
 SegsOfSyl(sg, sy, k, j) == IF j > Len(sg) THEN <<>> ELSE (IF sy[j] = k THEN <<Base[Inv[sg[j]]]>> ELSE <<>>) \o SegsOfSyl(sg, sy, k, j + 1)
-BuildWord(sg, sy, stv) == Word([k \in 1..sy[Len(sy)] |-> Syl(SegsOfSyl(sg, sy, k, 1), IF k = stv THEN "P" ELSE IF k = stv + 1 THEN "S" ELSE "U", 0)])
-Words == UNION { { BuildWord(sg, [i \in 1..n |-> SylOf(bs, i)], stv) : sg \in [1..n -> 1..4], bs \in [1..(n - 1) -> BOOLEAN], stv \in 0..2 } : n \in 1..MaxLen }
+\* tv = 1: tonal word, odd syllables carry tone 5, even ones 51
+BuildWord(sg, sy, stv, tv) == Word([k \in 1..sy[Len(sy)] |-> Syl(SegsOfSyl(sg, sy, k, 1), IF k = stv THEN "P" ELSE IF k = stv + 1 THEN "S" ELSE "U", IF tv = 0 THEN 0 ELSE IF k % 2 = 1 THEN 5 ELSE 51)])
+Words == UNION { { BuildWord(sg, [i \in 1..n |-> SylOf(bs, i)], stv, tv) : sg \in [1..n -> 1..4], bs \in [1..(n - 1) -> BOOLEAN], stv \in 0..2, tv \in 0..1 } : n \in 1..MaxLen }
+\* words typed in americanist notation: over a and the cardinals that have an americanist spelling
+AInv == <<A>> \o AmerLits
+RECURSIVE ASegsOfSyl(_, _, _, _)
+ASegsOfSyl(sg, sy, k, j) == IF j > Len(sg) THEN <<>> ELSE (IF sy[j] = k THEN <<Base[AInv[sg[j]]]>> ELSE <<>>) \o ASegsOfSyl(sg, sy, k, j + 1)
+AmerWords == UNION { { [Word([k \in 1..sy[Len(sy)] |-> Syl(ASegsOfSyl(sg, sy, k, 1), "U", 0)]) EXCEPT !.am = TRUE]
+                       : sg \in [1..n -> 1..Len(AInv)], sy \in { [i \in 1..n |-> SylOf(bs, i)] : bs \in [1..(n - 1) -> BOOLEAN] } } : n \in 1..(IF MaxLen > 3 THEN 3 ELSE MaxLen) }
 VARIABLES a1, a2, w, res
 Init == a1 \in 1..NP /\ a2 \in 0..NP /\ w = <<>> /\ res = <<>>
 Aliases == IF a2 = 0 THEN <<Pool[a1]>> ELSE <<Pool[a1], Pool[a2]>>
-Next == res = <<>> /\ \E x \in { y \in Words : NoRuns(y) } : w' = x /\ res' = <<RomaniseFrom(Aliases, x)>> /\ UNCHANGED <<a1, a2>>
+Next == res = <<>> /\ \E x \in { y \in Words \cup AmerWords : NoRuns(y) } : w' = x /\ res' = <<RomaniseFrom(Aliases, x)>> /\ UNCHANGED <<a1, a2>>
 TokT(t) == IF t[1] = "g" THEN <<"g", SegT(t[2])>> ELSE t
 Emit == res # <<>> => PrintT(ToJson([aliases |-> Aliases, w |-> WordT(w), exp |-> [i \in 1..Len(res[1]) |-> TokT(res[1][i])]]))
 =============================================================================
